@@ -151,6 +151,26 @@ func behave(b string, r reqLog, chain *vh.Chain, avail int, from int, chunk int)
 			hs[0] = c
 		}
 		return plan{items: okItems(hs), end: "close"}, heights(hs), false
+	case "forkMid":
+		// the right heights, validly signed, but the middle header belongs to another fork: its parent link does not
+		// point at its predecessor in the chunk (it is only wrong relative to the header before it)
+		hs := hts(o, a)
+		if len(hs) >= 2 {
+			// (forked one height earlier, so that the header's parent is the other fork's header and not its predecessor here)
+			fk := chain.Fork(hs[len(hs)/2].H-1, 77)
+			hs[len(hs)/2] = fk.At(hs[len(hs)/2].H)
+		}
+		return plan{items: okItems(hs), end: "close"}, heights(hs), len(hs) < 2
+	case "timeBack":
+		// the middle header is dated before its predecessor (though after the header the request started from)
+		hs := hts(o, a)
+		if len(hs) >= 3 {
+			k := len(hs) - 1
+			c := hs[k].Clone()
+			c.T = hs[k-1].T - int64(500*time.Millisecond)
+			hs[k] = c
+		}
+		return plan{items: okItems(hs), end: "close"}, heights(hs), len(hs) < 3
 	case "decodePanic", "validatePanic":
 		// a body that makes the application's header type panic while it is decoded (or validated)
 		hs := hts(o, a)
@@ -235,7 +255,9 @@ func TestRange(t *testing.T) {
 				})
 			}
 			log.add(RangeEv{Tr: id, Ev: "start", From: from, Amount: amount, Chunk: chunk, Mode: mode, Capable: capable, Degenerate: degenerate})
+			clientMetrics = mbt.Bool(c, "metrics")
 			ex := newExchange(t, hosts[0], trusted, uint64(chunk))
+			clientMetrics = false
 			time.Sleep(time.Second)
 			synctest.Wait()
 			type out struct {
